@@ -313,7 +313,7 @@ void do_roundtrip(Toks& in, Out& impl, Out& ref)
 }
 
 // ---------------------------------------------------------------- to_integer (etl specific API)
-template <typename T>
+template <typename T, bool Check>
 void do_to_integer(Toks& in, Out& impl, Out& /*ref*/)
 {
     bool ws    = in.num() != 0;
@@ -326,13 +326,13 @@ void do_to_integer(Toks& in, Out& impl, Out& /*ref*/)
         etl::strings::to_integer_result<T> r { };
         auto sv = etl::string_view{t.p, t.n};
         if (ws && plus) {
-            r = etl::strings::to_integer<T>(sv, base);
+            r = etl::strings::to_integer<T, opts{.skip_whitespace = true, .check_overflow = Check, .allow_plus_sign = true}>(sv, base);
         } else if (ws) {
-            r = etl::strings::to_integer<T, opts{.skip_whitespace = true, .check_overflow = true, .allow_plus_sign = false}>(sv, base);
+            r = etl::strings::to_integer<T, opts{.skip_whitespace = true, .check_overflow = Check, .allow_plus_sign = false}>(sv, base);
         } else if (plus) {
-            r = etl::strings::to_integer<T, opts{.skip_whitespace = false, .check_overflow = true, .allow_plus_sign = true}>(sv, base);
+            r = etl::strings::to_integer<T, opts{.skip_whitespace = false, .check_overflow = Check, .allow_plus_sign = true}>(sv, base);
         } else {
-            r = etl::strings::to_integer<T, opts{.skip_whitespace = false, .check_overflow = true, .allow_plus_sign = false}>(sv, base);
+            r = etl::strings::to_integer<T, opts{.skip_whitespace = false, .check_overflow = Check, .allow_plus_sign = false}>(sv, base);
         }
         o.tok(r.error == etl::strings::to_integer_error::none
                   ? "ok"
@@ -537,7 +537,11 @@ bool vh::run_case(std::string const& opname, Toks& in, Out& impl, Out& ref)
     }
     if (op == "to_integer") {
         auto ty = in.str();
-        return with_type(ty, [&](auto tg) { do_to_integer<typename decltype(tg)::type>(in, impl, ref); });
+        return with_type(ty, [&](auto tg) { do_to_integer<typename decltype(tg)::type, true>(in, impl, ref); });
+    }
+    if (op == "to_integer_nc") { // check_overflow = false (signed overflow of int and wider types = "ub" via the trap)
+        auto ty = in.str();
+        return with_type(ty, [&](auto tg) { do_to_integer<typename decltype(tg)::type, false>(in, impl, ref); });
     }
     if (op == "to_string") {
         auto ty = in.str();
